@@ -2,8 +2,9 @@
 use qvh::*;
 use quil_rs::expression::Expression;
 use quil_rs::instruction::{
-    AttributeValue, Delay, FrameAttributes, FrameDefinition, FrameIdentifier, Include, Instruction, Pragma, Pulse,
-    Qubit, WaveformInvocation,
+    AttributeValue, CalibrationDefinition, CalibrationIdentifier, CircuitDefinition, Delay, FrameAttributes,
+    FrameDefinition, FrameIdentifier, Include, Instruction, MeasureCalibrationDefinition, MeasureCalibrationIdentifier,
+    Pragma, Pulse, Qubit, WaveformInvocation,
 };
 use quil_rs::quil::Quil;
 use quil_rs::verif_hooks;
@@ -88,6 +89,75 @@ fn extract(pos: &str, i: &Instruction) -> Option<String> {
     }
 }
 
+const PLACES: [&str; 3] = ["defcal", "defcalMeasure", "defcircuit"];
+/// positions that may sit inside a definition body (the parser rejects DEFFRAME there; INCLUDE is kept)
+const BODY_POSITIONS: [&str; 4] = ["pragmaData", "includeFile", "frameIdent", "delayFrame"];
+
+fn wrap(place: &str, inner: Instruction) -> Instruction {
+    match place {
+        "defcal" => Instruction::CalibrationDefinition(CalibrationDefinition {
+            identifier: CalibrationIdentifier {
+                modifiers: vec![],
+                name: "X".to_string(),
+                parameters: vec![],
+                qubits: vec![Qubit::Fixed(0)],
+            },
+            instructions: vec![inner],
+        }),
+        "defcalMeasure" => Instruction::MeasureCalibrationDefinition(MeasureCalibrationDefinition {
+            identifier: MeasureCalibrationIdentifier::new(None, Qubit::Fixed(0), Some("addr".to_string())),
+            instructions: vec![inner],
+        }),
+        "defcircuit" => Instruction::CircuitDefinition(CircuitDefinition {
+            name: "C".to_string(),
+            parameters: vec![],
+            qubit_variables: vec![],
+            instructions: vec![inner],
+        }),
+        _ => unreachable!(),
+    }
+}
+
+fn unwrap_body(place: &str, outer: &Instruction) -> Option<Instruction> {
+    let body = match (place, outer) {
+        ("defcal", Instruction::CalibrationDefinition(d)) => &d.instructions,
+        ("defcalMeasure", Instruction::MeasureCalibrationDefinition(d)) => &d.instructions,
+        ("defcircuit", Instruction::CircuitDefinition(d)) => &d.instructions,
+        _ => return None,
+    };
+    if body.len() == 1 {
+        Some(body[0].clone())
+    } else {
+        None
+    }
+}
+
+/// a string-bearing instruction inside the body of a definition
+fn placed_case(ctx: &mut Ctx, place: &'static str, pos: &'static str, s: &str) {
+    let s = s.to_string();
+    ctx.case(tagged("placed", vec![atom(place), atom(pos), st(s.clone())]), || {
+        let instruction = wrap(place, build(pos, &s));
+        let text = match instruction.to_quil() {
+            Ok(t) => t,
+            Err(_) => return tagged("printerr", vec![]),
+        };
+        let back = match Program::from_str(&text) {
+            Ok(p) => {
+                let is = p.to_instructions();
+                match (is.len(), is.first().and_then(|o| unwrap_body(place, o))) {
+                    (1, Some(inner)) => match extract(pos, &inner) {
+                        Some(b) => tagged("reparsed", vec![st(b)]),
+                        None => tagged("err", vec![]),
+                    },
+                    _ => tagged("err", vec![]),
+                }
+            }
+            Err(_) => tagged("err", vec![]),
+        };
+        tagged("printed", vec![st(text), back])
+    });
+}
+
 fn pos_case(ctx: &mut Ctx, pos: &'static str, s: &str) {
     let s = s.to_string();
     ctx.case(tagged("pos", vec![atom(pos), st(s.clone())]), || {
@@ -149,12 +219,23 @@ fn run(ctx: &mut Ctx) {
             all_strings(len, &mut |s| pos_case(ctx, pos, s));
         }
     }
+    // 3b. the same positions inside the body of a DEFCAL, DEFCAL MEASURE and DEFCIRCUIT definition
+    for place in PLACES {
+        for pos in BODY_POSITIONS {
+            for len in 0..=(pos_len - 1) {
+                all_strings(len, &mut |s| placed_case(ctx, place, pos, s));
+            }
+        }
+    }
     // 4. random longer strings (Unicode, control characters) in every position and through the lexer
     let mut rng = ctx.rng(7);
     for _ in 0..n_random {
         let s = random_string(&mut rng, 40);
         let pos = *rng.pick(&POSITIONS);
         pos_case(ctx, pos, &s);
+        if rng.chance(1, 2) {
+            placed_case(ctx, *rng.pick(&PLACES), *rng.pick(&BODY_POSITIONS), &s);
+        }
         let t = format!("{}{}", verif_hooks::quoted_string(&s), random_string(&mut rng, 6));
         ctx.case(tagged("lex", vec![st(t.clone())]), || match verif_hooks::unescaped_quoted_string(&t) {
             Some((parsed, rest)) => tagged("ok", vec![st(parsed), st(rest)]),
